@@ -11,7 +11,7 @@ from beziers.line import Line
 
 ID = "C11"
 TOPICS = ["Inter", "Lookup", "Roots", "Affine", "Eval"]
-LEAN_TARGETS = ["BezierVerif.Props.C05M", "BezierVerif.Props.C11", "BezierVerif.Props.C11B", "BezierVerif.Props.C11P", "BezierVerif.Props.C11Q"]
+LEAN_TARGETS = ["BezierVerif.Props.C05M", "BezierVerif.Props.C11", "BezierVerif.Props.C11B", "BezierVerif.Props.C11P", "BezierVerif.Props.C11Q", "BezierVerif.Props.C11W"]
 TV_DEFS = ["ray_line"]
 RULE = ("closed paths: rectangles, ellipses, circles, random polygons, random contours mixing lines, quadratics and cubics (simple star-shaped and self-intersecting), "
         "doubled contours (K6 family); integer and float coordinates; query points uniform in the padded bounding box, outside the box on all four sides, and level "
@@ -23,7 +23,7 @@ UNPROVED = ["for curved segments the even-odd theorem is conditional (mixed_even
             "float evaluation of the crossing parameters near the 2e-7 window ends (sampled; excluded by the distance rule)",
             "sign(tangent.y) = sign of the derivative's y (normalisation by a positive length; atan2/sin for lines: Polar lemmas)"]
 ASSUMPTIONS = ["clear position (C11B.Clear): verticality / horizontality of edges decided exactly, |slope| >= 2e-7 for non-vertical edges, no parameter inside a 2e-7 band", "query level differs from every node / extremum level (else K1)", "no two segments cross a ray at the same point (else K6)"]
-LEVEL_TEXT = ("theorems: C11Q.pointIsInside_iff_odd_crossings (THE WHOLE PATH, hypotheses about the path and the query point only: for a closed path of lines, quadratics and cubics, no node level with the query point, the query point in clear position with respect to every segment (SegPos: every level crossing of a curve simple, inside the range filter and away from the rays' ends; a cubic's y-polynomial of degree two exactly or with a non-negligible leading coefficient) and no two level crossings on one point (NoCoincide), the model of pointIsInside — regenerated ray test, regenerated alignmentTransformation/transformed with real cos/sin/atan2, regenerated quadratic and Cardano root finders — is true exactly when the path crosses the level an odd number of times strictly left of the point, the crossings of a curve counted as the set {t in (0,1): y(t) = py, x(t) < px} (Set.ncard); built from curve_hseg_aligned, rootListOK_d_zero (the degenerate-cubic branch), segOK_of_geom (conditions on the aligned copies reduced to conditions on the segment: align_row, cubicOK_of_eq), left_count_curve, nodup_of_noCoincide; concrete arch example decided by the theorem), C11P.parity_simple_roots / segment_crossing_parity (ANY segment crosses a level an odd number of times iff its end points lie on opposite sides, all crossings simple: intermediate value theorem + sign next to a simple root), mixed_even_odd (closed paths mixing lines and curves: inside iff the left ray reports an odd number of crossings, under the per-segment hypothesis Hseg; line_hseg discharges Hseg for lines in clear position from the regenerated ray test, curve_hseg for curved segments of the winding model: curve_partition (each level crossing in clear position passes the range filter of exactly one ray: one_ray) + hseg_of_partition, given that the root finder hands both rays exactly the crossings; cubic_hseg_cardano removes that hypothesis for cubics in the Cardano branch using CardanoC.cubic_root_list (what _findRoots returns is the increasing repetition-free list of exactly the roots in (0,1)) and sorted_ext (both aligned copies give the same list); quad_hseg does the same for quadratic segments (quadraticRoots_nodup, quad_root_list)); polygon_even_odd (closed chains of lines in clear position: pointIsInside is true exactly when an odd number of edges straddle the query level and cross it "
+LEVEL_TEXT = ("theorems: C11W.winding_zero_outside_box_mixed (SECOND CLAUSE for closed paths of lines, quadratics and cubics: a query point left of, right of, below or above a box containing the path has winding number 0, under SegPos, no node on the level and NoCoincide; from winding_zero_one_side (every level crossing on one side of the point), Parity.signed_simple_roots / signed_crossings (the tangent signs at the simple level crossings of ANY segment add up to the change of side of its end points: IVT + sign next to a simple root, induction over the sorted crossings), ray_keep_iff (each ray keeps exactly the crossings on its side of the query point, wherever the point lies relative to the rays' far ends), row_one_side, closed_side_sum; concrete arch example), C11Q.pointIsInside_iff_odd_crossings (THE WHOLE PATH, hypotheses about the path and the query point only: for a closed path of lines, quadratics and cubics, no node level with the query point, the query point in clear position with respect to every segment (SegPos: every level crossing of a curve simple, inside the range filter and away from the rays' ends; a cubic's y-polynomial of degree two exactly or with a non-negligible leading coefficient) and no two level crossings on one point (NoCoincide), the model of pointIsInside — regenerated ray test, regenerated alignmentTransformation/transformed with real cos/sin/atan2, regenerated quadratic and Cardano root finders — is true exactly when the path crosses the level an odd number of times strictly left of the point, the crossings of a curve counted as the set {t in (0,1): y(t) = py, x(t) < px} (Set.ncard); built from curve_hseg_aligned, rootListOK_d_zero (the degenerate-cubic branch), segOK_of_geom (conditions on the aligned copies reduced to conditions on the segment: align_row, cubicOK_of_eq), left_count_curve, nodup_of_noCoincide; concrete arch example decided by the theorem), C11P.parity_simple_roots / segment_crossing_parity (ANY segment crosses a level an odd number of times iff its end points lie on opposite sides, all crossings simple: intermediate value theorem + sign next to a simple root), mixed_even_odd (closed paths mixing lines and curves: inside iff the left ray reports an odd number of crossings, under the per-segment hypothesis Hseg; line_hseg discharges Hseg for lines in clear position from the regenerated ray test, curve_hseg for curved segments of the winding model: curve_partition (each level crossing in clear position passes the range filter of exactly one ray: one_ray) + hseg_of_partition, given that the root finder hands both rays exactly the crossings; cubic_hseg_cardano removes that hypothesis for cubics in the Cardano branch using CardanoC.cubic_root_list (what _findRoots returns is the increasing repetition-free list of exactly the roots in (0,1)) and sorted_ext (both aligned copies give the same list); quad_hseg does the same for quadratic segments (quadraticRoots_nodup, quad_root_list)); polygon_even_odd (closed chains of lines in clear position: pointIsInside is true exactly when an odd number of edges straddle the query level and cross it "
               "left of the point — derived from the regenerated code through ray_line_eq_model / ray_hit (the ray crossing rule), straddle_even (a closed chain crosses a level an even "
               "number of times), collect_flat (the dict holds every crossing once when none coincide), hit_left / hit_right; winding_zero_outside_box (closed chains of lines in clear position: a query point left of, "
               "right of, below or above the box of the vertices has winding number 0 — the far ray meets every straddling edge and the signs telescope around the closed chain (windSum_ray, "
